@@ -8,16 +8,18 @@ from ..meshops_tie import PROP_MOD_C19 as MESHOPS_PROP_MOD2, PROP_MOD as MESHOPS
 from ..meshlib import PyMesh, oracle_mesh
 from .. import refmesh
 
-PROP_MODS = ['Stbem.Props.C19', 'Stbem.Props.C19Dyadic', MESHOPS_PROP_MOD, MESHOPS_PROP_MOD2]
+PROP_MODS = ['Stbem.Props.C19', 'Stbem.Props.C19Dyadic', 'Stbem.Props.C19TimeSlabs', MESHOPS_PROP_MOD, MESHOPS_PROP_MOD2]
 RULE = ('random bisection histories (bias 0.2/0.5/0.8) from the shipped-curve-like initial meshes, then '
-        'refine_grading(sigma, K=4) with sigma in {1, 1.5, 2}: model and code compared leaf by leaf after the call; '
+        'refine_grading(sigma, K=4) with sigma in {1, 1.5, 2}: model and code compared leaf by leaf after the call '
+        '(plus the two-slab grids [0, 2^-j, 1], j = 3..7: graded where Props/C19TimeSlabs proves termination, as built otherwise); '
         'search: the real call must return (wall-clock fuse), only refine, leave every leaf in the window '
         'h_t/K < h_x^sigma < K h_t (decided exactly: sigma=p/q compared as powers) and keep all C02 invariants. '
         'non-trivial = grading bisected at least one element; distinct = distinct (initial mesh, history, sigma).')
 TRUSTED = [
     'Lean 4.33 kernel; axioms propext, Classical.choice, Quot.sound only',
     'A-layer mesh model + correspondence harness (as C02)',
-    'termination is proved only under the hypotheses stated in Props/C19.lean; for general meshes it is explored',
+    'termination is proved only under the hypotheses stated in Props/C19.lean, C19Dyadic.lean, C19TimeSlabs.lean; for general '
+    'meshes it is explored',
     MESHOPS_TRUSTED,
 ]
 ASSUMPTIONS = ['exact coordinates; sigma = p/q compared without roots']
@@ -117,6 +119,23 @@ def correspond(res, tier):
             res.violation('C19:grading-raises', dict(history=batch.histories[-1]))
         if h < 2:
             res.sample(dict(glue=glue, X=batch.histories[-1]['X'], ops=batch.histories[-1]['ops'], leaves=len(pm.mesh.leaf_elements)))
+    # two time slabs [0, 2^-j, 1] over the unit square (Props/C19TimeSlabs): the initial mesh of finding F12 (j = 6: the
+    # mesh of `grading_time_slabs_diverges`, compared as built, no grading call) and the grids on which the loop is proved
+    # to terminate (q*j + 2 <= 6q + p), compared leaf by leaf after the grading call
+    X4 = [F(0), F(1), F(2), F(3), F(4)]
+    for j in (3, 4, 5, 6, 7):
+        for sigma in (1, 1.5, 2):
+            p_, q_ = {1: (1, 1), 2: (2, 1), 1.5: (3, 2)}[sigma]
+            terminates = q_ * j + 2 <= 6 * q_ + p_
+            if not terminates and sigma != 1:
+                continue
+            def gen(pm, k, sigma=sigma, terminates=terminates):
+                return ('grade', sigma, 4) if (k == 0 and terminates) else None
+            pm, ops, status = batch.add_history(1, X4, [F(0), F(1, 2**j), F(1)], gen, full_dump_every=0)
+            res.count(('slabs', j, sigma), terminates)
+            res.bump('slab_grids_graded' if terminates else 'slab_grids_init_only')
+            if status == 'err':
+                res.violation('C19:grading-raises', dict(history=batch.histories[-1]))
     dis = batch.run()
     res.notes['model_lines'] = len(batch.lines)
     res.notes['generated_model_lines'] = batch.n_generated
